@@ -548,4 +548,6 @@ pub fn run(ctx: &mut Ctx) {
 
     let cases = ctx.tier.pick(30_000u32, 400_000u32);
     ctx.prop_check("random_histories", cases, hist_strategy(12), |ctx, h| run_hist(ctx, h));
+    // coverage-guided part: the committed libFuzzer corpus (fuzz/corpus/c04_hist) through the same model
+    crate::fuzzing::corpus_check(ctx, "c04_hist");
 }
